@@ -95,7 +95,7 @@ def proof_step(pid, ev):
     """Builds Props/<pid>, audits axioms.  Returns (ok, detail)."""
     mod = "TinyHttpModel.Props." + pid
     rc, out, err = sh(["lake", "build", mod, "driver"], cwd=LEAN, timeout=3000)
-    ev["checker_cmd"] = "cd lean && lake build %s driver && lake env lean build/audit/%s.lean (#print axioms)" % (mod, pid)
+    ev["checker_cmd"] = "cd lean && lake build %s driver && lake env lean ../build/audit/%s.lean (#print axioms)" % (mod, pid)
     driver_ok = os.path.exists(DRIVER)
     if rc != 0:
         # which module failed?
@@ -148,6 +148,28 @@ def proof_step(pid, ev):
     return True, {"driver_ok": True}
 
 
+def failing_declarations(log):
+    """names the Lean declarations the error messages of a failed build point into"""
+    out = []
+    for m in re.finditer(r"error: (\S+?\.lean):(\d+):\d+", log or ""):
+        path, line = m.group(1), int(m.group(2))
+        full = path if os.path.isabs(path) else os.path.join(LEAN, path)
+        name = "?"
+        try:
+            lines = open(full).read().split("\n")
+            for i in range(min(line, len(lines)) - 1, -1, -1):
+                mm = re.match(r"\s*(?:@\[[^\]]*\]\s*)?(?:private\s+|protected\s+)?(theorem|lemma|def|example|instance|abbrev|structure|inductive)\s*([\w'\.]*)", lines[i])
+                if mm:
+                    name = "%s %s" % (mm.group(1), mm.group(2) or "(anonymous)")
+                    break
+        except OSError:
+            pass
+        d = "%s (%s:%d)" % (name, path, line)
+        if d not in out:
+            out.append(d)
+    return out[:10]
+
+
 def build_harness():
     rc, out, err = sh(["cargo", "build", "--release", "--offline"], cwd=HARNESS, timeout=3000)
     if rc != 0:
@@ -196,6 +218,9 @@ def load_known():
         return []
 
 
+CURRENT_CFG = {}
+
+
 def matches_finding(f, res, case_line):
     sig = f.get("signature", {})
     tags = set((res.get("tags") or "").split(","))
@@ -205,6 +230,19 @@ def matches_finding(f, res, case_line):
                 return False
         elif k == "case_contains":
             if v not in case_line:
+                return False
+        elif k == "only_failed":
+            # of the sub-verdicts the property needs, only these may be false
+            sub = {}
+            for kv in (res.get("sub") or "").split(","):
+                if ":" in kv:
+                    a, b = kv.split(":", 1)
+                    sub[a] = b
+            if any(sub.get(n) != "1" and n not in v for n in CURRENT_CFG.get("need", [])):
+                return False
+        elif k == "agreement":
+            # the model must still agree with the implementation on the property's projection
+            if res.get("_agree", "1") != v:
                 return False
         else:
             if res.get(k) != v:
@@ -275,6 +313,7 @@ def main():
         batches = [{"bin": b["bin"], "args": b["args"], "name": "replay " + " ".join(b["args"])}]
     else:
         batches = cfg["batches"](tier)
+    CURRENT_CFG.update(cfg)
     col = cfg.get("oracle_col", pid)
     acol = cfg.get("agree_col", "a" + pid)
 
@@ -320,6 +359,7 @@ def main():
                 if r.get("skip") == "1":
                     skipped += 1
                 a = agree_of(r)
+                r["_agree"] = a
                 r["_oracle"] = oracle_of(r)
                 if r.get("agree") == "0":
                     raw_disagree += 1
@@ -369,21 +409,12 @@ def main():
             violations.append((write_replay("%s-%d.case" % (pid, n_new), case_line, r, "property predicate false on the implementation's output"), ""))
         n_new += 1
 
-    # 2. a proof obligation no longer checks
-    if not proof_ok and not violations:
-        path = os.path.join(BUILD, "replay", "%s-proof.txt" % pid)
-        with open(path, "w") as f:
-            f.write("# property %s — a proof obligation no longer checks (%s)\n" % (pid, pdetail.get("stage")))
-            f.write("# failing: %s\n" % pdetail.get("failed"))
-            f.write(pdetail.get("log", "") + "\n")
-            f.write("# search for a failing input: %d cases run on the implementation, %d falsified the predicate\n" % (total, holds_false))
-        violations.append((os.path.relpath(path, ROOT), " no-failing-input-found"))
-
-    # 3. correspondence disagreement on the property's projection
-    if disagreeing and not violations:
-        # extended search: the thorough generators, predicate evaluated on the implementation
+    # 2./3. a proof obligation no longer checks, or model and implementation disagree on the
+    #       property's projection: search for a concrete failing input with the thorough generators
+    #       (predicate evaluated on the implementation), report it if found, else report what broke
+    if (not proof_ok or disagreeing) and not violations:
         found = None
-        if tier != "thorough" and not replay:
+        if tier != "thorough" and not replay and pdetail.get("driver_ok", True) and os.path.exists(DRIVER):
             for b in cfg["batches"]("thorough"):
                 rows, _ = run_batch(pid, b, seed + 1, "thorough")
                 for case_line, r in rows:
@@ -392,8 +423,21 @@ def main():
                         break
                 if found:
                     break
+        why = "a proof obligation no longer checks" if not proof_ok else "a correspondence disagreement"
         if found:
-            violations.append((write_replay("%s-0.case" % pid, found[0], found[1], "found by the extended search after a correspondence disagreement"), ""))
+            violations.append((write_replay("%s-0.case" % pid, found[0], found[1], "found by the extended search after " + why), ""))
+        elif not proof_ok:
+            path = os.path.join(BUILD, "replay", "%s-proof.txt" % pid)
+            with open(path, "w") as f:
+                f.write("# property %s — a proof obligation no longer checks (%s)\n" % (pid, pdetail.get("stage")))
+                for d in failing_declarations(pdetail.get("log", "")):
+                    f.write("# declaration that no longer checks: %s\n" % d)
+                f.write("# property theorems no longer established: %s\n"
+                        % ", ".join("TH.Props.%s.%s" % (pid, t) for t in props.EXPECTED_THEOREMS.get(pid, [])))
+                f.write("# failing: %s\n" % pdetail.get("failed"))
+                f.write(pdetail.get("log", "") + "\n")
+                f.write("# search for a failing input: %d quick cases and the thorough generators run on the implementation, %d falsified the predicate\n" % (total, holds_false))
+            violations.append((os.path.relpath(path, ROOT), " no-failing-input-found"))
         else:
             case_line, r = disagreeing[0]
             violations.append((write_replay("%s-corr-0.case" % pid, case_line, r,
